@@ -949,6 +949,14 @@ def check_evaluation_context(ctx):
         Optional objects (counts, conditions) then serve the wrong class"""
     from .c09 import check_exec
     check_exec(ctx)
+    # (i') ... and the compiler turns every operand of an expression into its run-time value: a named
+    # field into the value the packet has for it, never into the Field object itself (C09-c)
+    if ctx.prop == 'C08':
+        from .c09 import check_compile_expr, namedtuple_fields
+        try:
+            check_compile_expr(ctx, namedtuple_fields(ctx.repo.modules['deferred']['tree']))
+        except Undecided as e:
+            ctx.undecided('R9-postfix', ('bisturi/deferred.py', 'compile_expr'), 'compile_expr', str(e), 0, clause='c')
     from .. import drivers as D
     from ..model import stmt_text
     for kind in ('pack', 'unpack'):
